@@ -66,7 +66,9 @@ func GenWorld(rt *rapid.T) *World {
 		stake := StakeUnit*int64(rapid.IntRange(1, 4).Draw(rt, "stakeBins")) + int64(rapid.IntRange(0, 2).Draw(rt, "stakeExtra"))*1_000_000
 		nchains := rapid.IntRange(1, 2).Draw(rt, "nChains")
 		ns := NodeSpec{Key: k, Output: out, Stake: stake, Chains: append([]string{}, Chains[:nchains]...)}
-		if rapid.IntRange(0, 3).Draw(rt, "hasDelegators") == 0 {
+		// genesis (legacy custodial) record or staked by transaction after the activations (non-custodial record)
+		ns.ViaTx = !out.PublicKey().Equals(k.PublicKey()) || rapid.Bool().Draw(rt, "viaTx")
+		if ns.ViaTx && rapid.IntRange(0, 2).Draw(rt, "hasDelegators") == 0 {
 			ns.Delegators = map[string]uint32{}
 			nd := rapid.IntRange(1, 3).Draw(rt, "nDelegators")
 			for d := 0; d < nd; d++ {
